@@ -42,7 +42,7 @@ STRATA = {
     "compress": (4000, 120000),
     "serialize": (2500, 100000),
     "column": (2000, 60000),
-    "file": (1000, 25000),
+    "file": (1000, 15000),
 }
 REQUIRED_ORACLES = [
     "int_roundtrip_exact", "string_roundtrip_exact", "fixedpoint_half_step", "interval_one_step",
